@@ -138,3 +138,36 @@ move=> srt i j.
 rewrite (symm_qsm_pointwise sqrt Rltb (Cosine_laws scale sigma) (Rsorted_sle (k:=k_Cosine scale sigma) erefl srt)).
 by rewrite Cosine_evaluate qs_Cosine_closed_form.
 Qed.
+
+(* ---- SHO: the three regimes (the allclose band of the source is excluded, as in the property) ---- *)
+From Coq Require Import Lra.
+Definition k_SHO (w q sigma : R) : sskernel R R :=
+  MkSS 2 (qs_SHO_observation_model w q sigma) (qs_SHO_stationary_covariance w q sigma)
+       (qs_SHO_transition_matrix w q sigma) Rltb.
+Definition sho_regime (w q : R) : Prop :=
+  q = (1 / 2)%Rr \/ (Rle (1 / 2 + 1 / 1000)%Rr q /\ w <> 0%Rr) \/ (Rlt 0 q /\ Rle q (1 / 2 - 1 / 1000)%Rr /\ w <> 0%Rr).
+Lemma SHO_wfm w q sigma x y : wfm 2 (qs_SHO_transition_matrix w q sigma x y).
+Proof. by rewrite /qs_SHO_transition_matrix /wfm /=. Qed.
+Arguments qs_SHO_transition_matrix : simpl never.
+Lemma SHO_id w q sigma t : sho_regime w q -> qs_SHO_transition_matrix w q sigma t t = mident 2.
+Proof.
+case=> [->|[[hq hw]|[hq0 [hq hw]]]].
+- by rewrite sho_crit_form // Rminus_diag_eq // sho_crit_id.
+- rewrite sho_under_form // Rminus_diag_eq // sho_under_id //; lra.
+- rewrite sho_over_form // Rminus_diag_eq // sho_over_id //; lra.
+Qed.
+Lemma SHO_semigroup w q sigma t1 t2 t3 : sho_regime w q ->
+  mmul 2 (qs_SHO_transition_matrix w q sigma t2 t3) (qs_SHO_transition_matrix w q sigma t1 t2)
+  = qs_SHO_transition_matrix w q sigma t1 t3.
+Proof.
+case=> [->|[[hq hw]|[hq0 [hq hw]]]].
+- rewrite !sho_crit_form // sho_crit_semigroup; congr (sho_crit _ _); lra.
+- rewrite !sho_under_form // sho_under_semigroup //; [congr (sho_under _ _ _); lra | lra].
+- rewrite !sho_over_form // sho_over_semigroup //; [congr (sho_over _ _ _); lra | lra].
+Qed.
+Theorem SHO_laws w q sigma : sho_regime w q -> @ss_laws Rf R (k_SHO w q sigma).
+Proof.
+move=> reg; apply: laws_of_lists => //.
+- by move=> t; exact: SHO_id.
+- by move=> t1 t2 t3; exact: SHO_semigroup.
+Qed.
